@@ -38,6 +38,10 @@ CHECKS.update({
  "C16": seq("Proved on the model: register adds exactly (fd, interest, mode, key) and touches no other fd; unregister/Drop remove the fd; a released fd can be added again; a double add is refused. PARTIAL: 'always exactly the enabled sources' over whole histories is decided by comparing the kernel's own table (/proc/self/fdinfo/<epfd>: fd, mask, key) with the model after every E command and by an oracle on the real dumps. Async adapters are not covered by this check yet.", "DESIGN.md 4 (C16)"),
 })
 
+CHECKS["C18"] = dict(
+    text="Proved for ALL sequences (any length) of child post-actions, remove(), replace(new), parent register/reregister/unregister that follow the documented protocol and avoid the recorded F7 state: every child (re/un)registration call succeeds (never registered twice, never unregistered while unregistered), every dropped child is unregistered, the wrapper returns only Continue/Reregister, and between operations the child is registered exactly when it is the kept child of a registered parent; events are forwarded only to the kept child. F7 (double unregister after a child returned Disable) is a known finding with a vm_compute witness (C18_F7_refuted). Correspondence: every sequence up to length 4 (thorough 6) plus random longer ones through the real TransientSource inside a real EventLoop with instrumented Generic<eventfd> children.",
+    note="Trusted: Coq kernel, extraction, ocaml/driver, harness (instrumented child + transparent observer source). Children are modelled as a registered flag; timer children (double register is silent) are not run. No axioms.",
+    technique="Coq proof (exhaustive case analysis lifted by induction over operation sequences) + exhaustive small-sequence differential correspondence", ref="DESIGN.md 4 (C18)")
 
 def main():
     props = [json.loads(l) for l in open(os.path.join(ROOT, "properties.jsonl"))]
